@@ -85,26 +85,18 @@ namespace AIToolbox::Bandit {
 
     template <typename V, typename Gen>
     size_t QGreedyPolicyWrapper<V, Gen>::sampleAction() {
-        // Automatically sets initial best action as bestAction[0] = 0
-        buffer_[0] = 0;
+        // The greedy actions are the ones that compare equal to the maximum.
+        // We look for the maximum first, so that the set of greedy actions
+        // does not depend on the order in which they are scanned (note that
+        // checkEqualGeneral is not transitive), and so that it is the same
+        // set used by getActionProbability() and getPolicy().
+        const double bestValue = q_.maxCoeff();
 
-        // This work is due to multiple max-valued actions
-        double bestValue = q_[0]; unsigned bestActionCount = 1;
-        for ( size_t a = 1; a < buffer_.size(); ++a ) {
-            const double val = q_[a];
-            // The checkEqualGeneral is before the greater since we want to
-            // trap here things that may be equal (even if one is a tiny bit
-            // higher than the other).
-            if ( checkEqualGeneral(val, bestValue) ) {
-                buffer_[bestActionCount] = a;
-                ++bestActionCount;
-            }
-            else if ( val > bestValue ) {
-                buffer_[0] = a;
-                bestActionCount = 1;
-                bestValue = val;
-            }
-        }
+        unsigned bestActionCount = 0;
+        for ( size_t a = 0; a < buffer_.size(); ++a )
+            if ( checkEqualGeneral(q_[a], bestValue) )
+                buffer_[bestActionCount++] = a;
+
         auto pickDistribution = std::uniform_int_distribution<unsigned>(0, bestActionCount-1);
         const unsigned selection = pickDistribution(rand_);
 
@@ -113,35 +105,25 @@ namespace AIToolbox::Bandit {
 
     template <typename V, typename Gen>
     double QGreedyPolicyWrapper<V, Gen>::getActionProbability(const size_t a) const {
-        const double max = q_[a]; unsigned count = 0;
-        for ( size_t aa = 0; aa < buffer_.size(); ++aa ) {
-            const double val = q_[aa];
-            // The checkEqualGeneral is before the greater since we want to
-            // trap here things that may be equal (even if one is a tiny bit
-            // higher than the other).
-            if ( checkEqualGeneral(val, max) ) ++count;
-            else if ( val > max ) {
-                return 0.0;
-            }
-        }
+        const double max = q_.maxCoeff();
+        if ( !checkEqualGeneral(q_[a], max) ) return 0.0;
+
+        unsigned count = 0;
+        for ( size_t aa = 0; aa < buffer_.size(); ++aa )
+            if ( checkEqualGeneral(q_[aa], max) ) ++count;
+
         return 1.0 / count;
     }
 
     template <typename V, typename Gen>
     template <typename P>
     void QGreedyPolicyWrapper<V, Gen>::getPolicy(P && p) const {
-        double max = q_[0]; unsigned count = 1;
-        for ( size_t aa = 1; aa < buffer_.size(); ++aa ) {
-            const double val = q_[aa];
-            // The checkEqualGeneral is before the greater since we want to
-            // trap here things that may be equal (even if one is a tiny bit
-            // higher than the other).
-            if ( checkEqualGeneral(val, max) ) ++count;
-            else if ( val > max ) {
-                max = val;
-                count = 1;
-            }
-        }
+        const double max = q_.maxCoeff();
+
+        unsigned count = 0;
+        for ( size_t aa = 0; aa < buffer_.size(); ++aa )
+            if ( checkEqualGeneral(q_[aa], max) ) ++count;
+
         for ( size_t aa = 0; aa < buffer_.size(); ++aa ) {
             if ( checkEqualGeneral(q_[aa], max) )
                 p[aa] = 1.0 / count;
